@@ -81,7 +81,8 @@ def match_known(known, prop, sub_name, label, case):
     for k in known:
         if k.get("subcheck") not in (None, "*", sub_name):
             continue
-        if k.get("label") and k["label"] != label:
+        kl = k.get("label")
+        if kl and not (label == kl or (kl.endswith("*") and label.startswith(kl[:-1]))):
             continue
         pred = k.get("predicate")
         if pred:
